@@ -23,8 +23,9 @@ RULE = ("seeded histories of 1-7 operations (write via path/stream, overwrite, u
         "write was read back; distinct = distinct event-log digests")
 REAL = ["bec2format.bf3file (writer, reader, text envelope)", "bec2format.bytes_reader",
         "register_crypto_plugin.AES128Proxy", "pyaes"]
-STUBS = ["medium: SimFS/SimTextWriter/SimTextReader (volatile until close/flush, CRLF translation)"]
-PROBES = ["rewrite-of-read-back-object", "unchecked-read-with-other-key", "read-after-overwrite-shorter", "read-after-failed-write-retry", "crlf-on-medium",
+STUBS = ["medium: SimFS/SimTextWriter/SimTextReader (volatile until close/flush, CRLF translation)",
+         "thread scheduling of the concurrent-callers arm: Sched (sim/sched.py, sim/conc.py)"]
+PROBES = ["concurrent-callers", "concurrent-callers-same-key", "rewrite-of-read-back-object", "unchecked-read-with-other-key", "read-after-overwrite-shorter", "read-after-failed-write-retry", "crlf-on-medium",
           "payload-multiple-of-16", "payload-trailing-zero", "writer-rejected-oversize",
           "read-after-restart"]
 ASSUMPTIONS = ["input breadth is that of the seeded generator (sampling)",
@@ -35,6 +36,15 @@ NAMES = ["a.bf3", "b.bf3", "c.bf3"]
 
 def gen(st, tier):
     w = st["workload"]
+    if w.random() < 0.05:
+        # concurrent callers: each thread writes and reads back its own file, the simulator owns the switches
+        from sim import conc
+        n = w.choice([2, 2, 3])
+        k = G.session_key_spec(w)
+        pre, ch = conc.sched_spec(st["schedule"])
+        return {"conc": True, "objs": [G.bf3_spec(w, max_comps=2, max_len=70) for _ in range(n)],
+                "keys": [k if w.random() < 0.8 else G.session_key_spec(w) for _ in range(n)],
+                "preempt": pre, "choices": ch}
     nobj = w.choice([1, 1, 2, 3])
     objs = [G.bf3_spec(w, p_enc=0.0, max_len=300 if w.random() < 0.8 else 1500,
                          oversize_ok=True) for _ in range(nobj)]
@@ -77,7 +87,67 @@ def gen(st, tier):
     return {"objs": objs, "keys": keys, "ops": ops}
 
 
+def _run_conc(case):
+    import hashlib
+    from sim import conc
+    out = Outcome()
+    holders = []
+
+    def make_bodies(s):
+        fs = SimFS()
+        env.bf3file.open = fs.open
+        holders.append(fs)
+
+        def body(i):
+            def fn():
+                spec = case["objs"][i]
+                key = bytes.fromhex(case["keys"][i])
+                name = "t%d.bf3" % i
+                obj = G.build_bf3(spec, env)
+                h = fs.open(name, "w")
+                try:
+                    obj.write_file(h, key)
+                finally:
+                    h.close()
+                got = env.bf3file.Bf3File.read_file(name, True, key)
+                return (G.compare_bf3(G.model_of(spec), got), hashlib.sha256(fs.files[name]).hexdigest()[:16])
+            return fn
+        return [body(i) for i in range(len(case["objs"]))]
+    try:
+        dry, cc, pre = conc.run_conc(make_bodies, case["preempt"], case["choices"], first=0)
+    finally:
+        env.restore_registry()
+    if any(t.exc is not None or (t.result and t.result[0]) for t in dry.threads):
+        out.ev("sequential-fails")      # not a schedule matter: the sequential histories decide that
+        return out
+    npre = sum(1 for d in cc.decisions if d[3] == "preempt")
+    out.fired["preempt"] += npre
+    out.nontrivial = npre > 0
+    out.probes["concurrent-callers"] += 1
+    if len(set(case["keys"])) < len(case["keys"]):
+        out.probes["concurrent-callers-same-key"] += 1
+    out.ev("conc", tuple(cc.decisions), [t.result and t.result[1] for t in cc.threads], cc.aborted)
+    narrow = dict(case, preempt=[["abs", p] if isinstance(p, int) else list(p) for p in pre])
+    if cc.aborted:
+        out.fail("C01.concurrent", "aborted-" + cc.aborted, "concurrent run aborted: " + cc.aborted, narrow)
+        return out
+    for i, (t, d) in enumerate(zip(cc.threads, dry.threads)):
+        if t.exc is not None:
+            out.fail("C01.concurrent", "raises-" + type(t.exc).__name__,
+                     "thread %d: write+read of its own file raised %r under schedule %s (not when run alone)"
+                     % (i, t.exc, cc.decisions), narrow)
+        elif t.result[0]:
+            out.fail("C01.concurrent", "differs-" + t.result[0][0], "thread %d: %s under schedule %s"
+                     % (i, t.result[0][1], cc.decisions), narrow)
+        elif t.result[1] != d.result[1]:
+            out.fail("C01.concurrent", "written-text-differs", "thread %d wrote a different text than when run "
+                     "alone (schedule %s)" % (i, cc.decisions), narrow)
+    return out
+
+
 def run(case):
+    if case.get("conc"):
+        return _run_conc(case)
     out = Outcome()
     fs = SimFS()
     env.restore_registry()
@@ -231,6 +301,17 @@ def run(case):
 
 
 def shrink(case):
+    if case.get("conc"):
+        pre = case["preempt"]
+        for i in range(len(pre)):
+            yield dict(case, preempt=pre[:i] + pre[i + 1:])
+        if len(case["objs"]) > 2:
+            for i in range(len(case["objs"])):
+                yield dict(case, objs=case["objs"][:i] + case["objs"][i + 1:], keys=case["keys"][:i] + case["keys"][i + 1:])
+        for oi, spec in enumerate(case["objs"]):
+            for ns in G.spec_shrinks(spec):
+                yield dict(case, objs=case["objs"][:oi] + [ns] + case["objs"][oi + 1:])
+        return
     ops = case["ops"]
     for i in range(len(ops)):
         yield dict(case, ops=ops[:i] + ops[i + 1:])
